@@ -207,6 +207,22 @@ def loop_write_set(ex: Executor, stmts, fr: Frame, depth=0, seen=None) -> set:
                         elif isinstance(tt, ast.Subscript) and isinstance(tt.ctx, ast.Store):
                             out.update(LIST_FIELDS)
                             out.update(DICT_FIELDS)
+            elif isinstance(n, (ast.Yield, ast.YieldFrom, ast.Await)):
+                # an interference point inside the loop: everything the interference may change is part of what an arbitrary number
+                # of iterations may have changed (declared by the on_yield handler's `.modifies`, else everything)
+                h = None
+                f_ = fr
+                while f_ is not None and h is None:
+                    h = getattr(f_.contract, "on_yield", None) if f_.contract is not None else None
+                    f_ = f_.parent_env
+                if h is None and getattr(ex, "top_contract", None) is not None:
+                    h = ex.top_contract.on_yield
+                if h is not None:
+                    mods = getattr(h, "modifies", None)
+                    if mods is None:
+                        out.add("*")
+                    else:
+                        out.update(mods)
             elif isinstance(n, ast.Delete):
                 out.update(DICT_FIELDS)
             elif isinstance(n, (ast.ListComp, ast.List, ast.Tuple, ast.Dict, ast.Set, ast.SetComp, ast.DictComp)):
